@@ -1,7 +1,7 @@
 ----------------------------- MODULE MC_OneWay ------------------------------
 (***************************************************************************)
 (* Exhaustive exploration of the OneWay design for small constants:        *)
-(* 2 (thorough: 3) senders x 2 packs (one larger than the writer buffer,   *)
+(* 2 (thorough: 3) senders, 3..5 packs (some larger than the write buffer, *)
 (* two with a per-send license), frames of 2 units, at most MaxFaults      *)
 (* environment faults, at most MaxConn connections, queue capacity QCap.   *)
 (* Direct mode and queue mode are separate configurations.                 *)
